@@ -1065,6 +1065,7 @@ def run_machinevars(ctx):
         f.write('SPECIFICATION TSpec\nCONSTANTS\n  Configs <- TConfigs\n  Vals = {}\n  Advs = {}\n  Downs = {}\n'
                 '  MaxTime = 100000000\n  MaxOps = 100000000\nINVARIANT Reporter\nINVARIANT StoreInSync\nCHECK_DEADLOCK FALSE\n')
     v = tlc.validate_traces(wd, 'MachineVarsTrace', 'MVTrace.cfg', traces)
+    tlc.finish_diagnosis(wd, 'MachineVarsTrace', 'MVTrace.cfg', traces, v)
     ctx.add_trace_verdict('MachineVarsTrace', v, len(traces))
     ctx.sample({'kind': 'machine-vars-trace', 'cfg': traces[-1]['cfg'], 'trace': traces[-1]['ev'][:10]})
     for i, info in sorted(v.rejected.items()):
